@@ -112,8 +112,13 @@ def build(harness, flavours):
         # experiments on a snapshot of the repository (vp run --with-repo); the registered
         # commands never set this and always build from /repo's working tree
         extra = ["REPO=" + os.environ["VERIF_REPO"]]
-    p = subprocess.run(["make", "-C", VERIF, "-j%d" % NCPU, "--no-print-directory"] + extra + targets,
-                       stdout=subprocess.PIPE, stderr=subprocess.STDOUT, text=True)
+    # serialise builds: two checks started at the same time share the build directory
+    import fcntl
+    os.makedirs(BUILD, exist_ok=True)
+    with open(os.path.join(BUILD, ".lock"), "w") as lk:
+        fcntl.flock(lk, fcntl.LOCK_EX)
+        p = subprocess.run(["make", "-C", VERIF, "-j%d" % NCPU, "--no-print-directory"] + extra + targets,
+                           stdout=subprocess.PIPE, stderr=subprocess.STDOUT, text=True)
     if p.returncode != 0:
         log(p.stdout[-6000:])
         log("BUILD-FAILURE")
